@@ -260,21 +260,38 @@ Eval vm_compute in ("ROUTES", routes, "PROBLEMS", problems,
     m = re.search(r'"RACE_FREE", (\w+), "LOCK_ORDER", (\w+), "ROUTER", (\w+)', flat)
     if m:
         res["race_free"], res["lock_order_ok"], res["router_check"] = (x == "true" for x in m.groups())
-    rows = []
+    rows, unclassified = [], []
     for mm in re.finditer(r'\("(\w+)", "(\w+)", (\d+)%N, \(?(C\w+(?: "[^"]*")?)\)?, ([RW]),', flat):
-        rows.append("core/internal/storage/inmemory.go:%s %s (in %s) %s %s" % (mm.group(3), mm.group(2), mm.group(1), mm.group(4), mm.group(5)))
+        txt = "core/internal/storage/inmemory.go:%s %s (in %s) %s %s" % (mm.group(3), mm.group(2), mm.group(1), mm.group(4), mm.group(5))
+        if mm.group(4).startswith("CUnknown"):
+            # not a classified access that breaks the discipline: something the translator could not classify
+            unclassified.append("core/internal/storage/inmemory.go:%s %s (in %s): %s" % (mm.group(3), mm.group(2), mm.group(1), mm.group(4)[9:]))
+        else:
+            rows.append(txt)
     for mm in re.finditer(r'\("(\w+)", "(\w+)", (\d+)%N, (L\w+), (M\w), (\[[^\]]*\])\)', flat):
         rows.append("core/internal/storage/inmemory.go:%s %s (in %s) acquires %s %s while holding %s"
                     % (mm.group(3), mm.group(2), mm.group(1), mm.group(4), mm.group(5), mm.group(6)))
     m = re.search(r'"UNHASHED_WRITERS", (.*?), "UNHANDLED", (.*?)\)\s*:', flat)
     route_line = dict((mm.group(1), mm.group(3)) for mm in re.finditer(r'\("(Storage\w+)", (R\w+), (\d+)%N\)', flat))
     route_kind = dict((mm.group(1), mm.group(2)) for mm in re.finditer(r'\("(Storage\w+)", (R\w+), (\d+)%N\)', flat))
+    mp = re.search(r'"PROBLEMS", (\[.*?\]), "UNHASHED_WRITERS"', flat)
+    if mp:
+        for mm in re.finditer(r'"((?:[^"]|"")*)"', mp.group(1)):
+            unclassified.append("core/internal/storage/inmemory.go (dispatch): " + mm.group(1))
+    for k, kind in sorted(route_kind.items()):
+        if kind == "RUnknown":
+            unclassified.append("core/internal/storage/inmemory.go:%s mainLoop: the way the worker for %s is chosen is not understood" % (route_line[k], k))
     if m:
         for mm in re.finditer(r'\("(Storage\w+)", "(\w+)"\)', m.group(1)):
+            if route_kind.get(mm.group(1)) == "RUnknown":
+                continue
             rows.append("core/internal/storage/inmemory.go:%s mainLoop dispatches %s as %s but its handler %s writes the state of its own group"
                         % (route_line.get(mm.group(1), "?"), mm.group(1), route_kind.get(mm.group(1), "not at all"), mm.group(2)))
         for mm in re.finditer(r'"(Storage\w+)"', m.group(2)):
-            rows.append("core/internal/storage/inmemory.go mainLoop/requestTypeMap do not handle %s" % mm.group(1))
+            if route_kind.get(mm.group(1)) == "RUnknown":
+                continue
+            rows.append("core/internal/storage/inmemory.go mainLoop / the handler table do not handle %s" % mm.group(1))
+    res["unclassified"] = sorted(set(unclassified))
     res["rows"] = sorted(set(rows))
     return res
 
@@ -311,20 +328,38 @@ def router_probe(chk, binp):
     return line, bad
 
 
-def table_violation(chk, failed_names, diag, extra=None):
-    """A failed table obligation: the replay is the offending rows (file:line); a -race stress run is attempted only to
-    add a concrete runtime report to the replay."""
+def table_violation(chk, failed_names, diag, extra=None, dynamic_found=False):
+    """A failed table obligation.
+    * A CLASSIFIED row that breaks the discipline (lock missing / wrong mode / cyclic order / keyed type not hashed / shared
+      pointer put into a reply): the replay is those rows (file:line) - a concrete table row.
+    * Only because the translator could NOT classify something (CUnknown rows, dispatch it cannot read): no claim of a
+      failing input is made from the table; the dynamic search (scheduler schedules, router probe, -race stress) has been
+      run by the caller; if it found nothing the verdict carries `no-failing-input-found` and the replay names the
+      constructs.  Rows that fail next to an unclassified construct may be artefacts of it and are listed separately."""
     flagged = [n for n, k in (("lockset_table_race_free", "race_free"), ("lock_order_table_ok", "lock_order_ok"),
                               ("router_table_ok", "router_check")) if diag.get(k) is False]
-    rep = {"kind": "table", "broken": flagged or failed_names, "all_failed_obligations": failed_names, "probe": "translator/lockset (coq/gen/LocksetTable.v, RouterTable.v)",
+    unclassified = diag.get("unclassified") or []
+    rep = {"kind": "table", "broken": flagged or failed_names, "all_failed_obligations": failed_names,
+           "probe": "translator/lockset (coq/gen/LocksetTable.v, RouterTable.v)",
            "race_free": diag.get("race_free"), "lock_order_ok": diag.get("lock_order_ok"), "router_check": diag.get("router_check"),
-           "rows": diag.get("rows"), "coq_output": diag.get("raw"),
-           "oracle_verdict": "the lock discipline / lock order / router table regenerated from the working tree fails its checker: "
-                             "the listed accesses conflict without a common lock (or are unclassifiable), so lockset_sound no longer applies",
-           "cmd": "bin/check C08 --tier quick"}
+           "coq_output": diag.get("raw"), "cmd": "bin/check C08 --tier quick"}
+    if unclassified:
+        rep["unclassified_constructs"] = unclassified
+        rep["rows_possibly_artefacts_of_the_unclassified_constructs"] = diag.get("rows")
+        rep["oracle_verdict"] = ("the translator could not classify the constructs listed under unclassified_constructs, so the lockset / "
+                                 "lock-order / router theorems do not apply to this tree; this is NOT a classified access that breaks the "
+                                 "discipline. Dynamic search (scheduler schedules + router probe + -race stress): %s"
+                                 % ("found failing inputs, reported separately" if dynamic_found else "found nothing"))
+        found = False
+    else:
+        rep["rows"] = diag.get("rows")
+        rep["oracle_verdict"] = ("the lock discipline / lock order / router table regenerated from the working tree fails its checker on "
+                                 "CLASSIFIED rows: the listed accesses conflict without a common lock (or a lock is requested against the "
+                                 "order, or a group-keyed type is not hashed), so lockset_sound no longer applies")
+        found = bool(diag.get("rows"))
     if extra:
         rep.update(extra)
-    chk.violation("table", rep, found_input=bool(diag.get("rows")))
+    chk.violation("table", rep, found_input=found)
 
 
 def stress(chk, seconds):
@@ -475,12 +510,21 @@ def run(chk, failed):
                                        "cmd": "bin/check C08 --replay <this file>"})
         reported += 1
 
-    # 2. failed proof obligations: the regenerated tables name the offending rows
+    # 2. failed proof obligations: classified bad rows are a concrete replay; unclassifiable constructs are reported as such,
+    #    after the dynamic search (the schedules above, the router probe, and a -race stress run) - never as a found input
     if failed:
         stress_rep = None
-        if diag and diag.get("race_free") is False and os.environ.get("VERIF_C08_STRESS", "1") != "0":
-            stress_rep = stress(chk, 5)
-        table_violation(chk, [n for n, _ in failed], diag or {}, extra={"race_stress": stress_rep, "details": [d[-800:] for _, d in failed][:3]})
+        unclassified = bool(diag and diag.get("unclassified"))
+        if diag and (unclassified or diag.get("race_free") is False) and os.environ.get("VERIF_C08_STRESS", "1") != "0":
+            stress_rep = stress(chk, 10 if unclassified else 5)
+            if stress_rep.get("data_races") or stress_rep.get("fatal"):
+                chk.violation("race_stress", {"kind": "schedule", "probe": "storage/TestVerifProbeStorageconcStress (-race)", "report": stress_rep,
+                                              "broken": "lockset_sound (data race observed at run time)",
+                                              "oracle_verdict": "the Go race detector / runtime reported a race in inmemory.go",
+                                              "cmd": "VERIF_STRESS=10 <race binary> -test.run TestVerifProbeStorageconcStress"})
+        dynamic_found = bool(oracle_hits or mism or rbad or (stress_rep and (stress_rep.get("data_races") or stress_rep.get("fatal"))))
+        table_violation(chk, [n for n, _ in failed], diag or {}, extra={"race_stress": stress_rep, "details": [d[-800:] for _, d in failed][:3]},
+                        dynamic_found=dynamic_found)
         reported += 1
 
     # 3. the implementation left the verified model on some schedule
